@@ -224,6 +224,10 @@ class Ctx:
         """Large random cases (no expectations) -> real crate with event logging -> TLC trace validation."""
         cases_path = os.path.join(self.outdir, "%s.random.cases.ndjson" % label)
         n = generate(cases_path)
+        have = core.count_lines(cases_path)
+        if have < max(1, n // 3):
+            # guard against silent loss of coverage (a generator bug must not turn into a vacuous pass)
+            raise ToolError("random generator for %s produced %d cases, %d requested" % (label, have, n))
         self.count_nontrivial(cases_path, lambda c: c)
         if len(self.samples) < 8:
             self.samples.append({"random_case": core.read_case(cases_path, 0)})
